@@ -8,17 +8,25 @@ CLAIMS = {
     'C11': dict(
         text='Lean 4 theorems (opt_window, explicit_window, opt_size_orphan, next_prev_flags, link_positions, '
              'links_in_range, tiling, tiling_prev) about the model of DT_InSV.opt / renderwb window+links for ALL '
-             'integers and lengths; model tied to /repo by a correspondence run over the exhaustive small-scope '
-             'grid plus an independent oracle on the real tag',
+             'integers and lengths; the batch lists next-batches / previous-batches (next_batches_tile, previous_batches_tile, '
+             'next_batches_fuel / previous_batches_fuel = termination for every parameter tuple, batch_lists_start_at_links); '
+             'DT_InSV.opt and the while loops of next_batches / previous_batches are TRANSLATED from /repo on every run '
+             '(GenCode.lean) and proved equal to the model (gen_opt_is_model, gen_next_batches_is_model, '
+             'gen_previous_batches_is_model, gen_batch_list_inputs); model tied to /repo by a correspondence run over the '
+             'exhaustive small-scope grid (windows, links, batch lists incl. overlap >= size) plus an independent oracle on the '
+             'real tag',
         note='Trusted: Lean kernel (axioms propext/Classical.choice/Quot.sound only); hand-written model of '
              'opt/renderwb validated by correspondence; int_param/parse_params glue tested, not proved',
-        technique='Lean 4 proof (grind/omega, induction on click count) + model/implementation correspondence',
+        technique='Lean 4 proof (grind/omega, induction on click count / loop fuel) over a model partly regenerated from the source '
+                  '(statement-by-statement translator) + model/implementation correspondence',
         ref='DESIGN.md §5 C11'),
     'C12': dict(
         text='Lean 4 theorems about the SequenceFromIter pull-log model and the ordered access trace of renderwb: '
              'pulls_sequential (any access sequence), run_pulled, batch_pull_bound_partial (pulled <= end+size+orphan '
              'under start-1+overlap <= bound), finding_C12_overlap (witness of the excluded region), '
-             'len_only_after_failed_probe / unbounded_no_len, unbatched_pulls_all_once; correspondence against real '
+             'len_only_after_failed_probe / unbounded_no_len, unbatched_pulls_all_once; SequenceFromIter.__getitem__ / __len__ are '
+             'TRANSLATED from /repo on every run (GenCode.sfiGetitemGen / sfiLenLoopGen) and proved equal to the model '
+             '(gen_getitem_is_model, gen_len_is_model, gen_len_is_lenOp); correspondence against real '
              'counting iterators/generators (bounded and unbounded)',
         note='Trusted: Lean kernel; LazySt model of the iterator wrapper and the access trace validated by '
              'correspondence (pull counts equal on every case). Partial: bound proved outside the known-finding region',
@@ -292,11 +300,15 @@ CLAIMS = {
              'lists: count_total_spec, none_ignored, mean_spec, variance_n_eq (sum x^2/n - mean^2 = population '
              'variance), variance_eq (… n/(n-1) = sample variance), variance_nonneg, min_max_spec, median_spec '
              '(odd: middle element of the sorted values; even: lo <= m <= hi, floor of the mean for ints, mean '
-             'otherwise); correspondence of the ten stat-x variables against exact rationals; oracle = statistics/'
-             'fractions from the standard library',
+             'otherwise); sequence_variables.statistics is TRANSLATED from /repo on every run (harness/trans_stats.py -> '
+             'GenStats.lean: the numeric accumulation step, the block of numeric statistics, the median rule) and proved equal '
+             'to the model (gen_statistics_step_is_model, gen_statistics_loop_is_model, gen_statistics_derived_is_model, '
+             'gen_statistics_median_is_model); correspondence of the ten stat-x variables against exact rationals; oracle = '
+             'statistics/fractions from the standard library',
         note='Trusted: Lean kernel + Mathlib lemmas; floats enter as the rationals they denote, rounding and '
              'math.sqrt are runtime (partial): compared within a relative tolerance; string statistics oracle-only',
-        technique='Lean 4 proof over Q (Mathlib tactics) + correspondence through exact fractions',
+        technique='Lean 4 proof over Q (Mathlib tactics) over a model partly regenerated from the source (statement-by-statement '
+                  'translator) + correspondence through exact fractions',
         ref='DESIGN.md §5 C16'),
     'C20': dict(
         text='Lean 4 theorems: (codec) b64_roundtrip — decode(encode(bytes)) = bytes for EVERY byte string, chunk '
@@ -321,7 +333,11 @@ CLAIMS = {
              'character), tokens_complete / tokens_tail_tagfree (the fuel |src|+1 always suffices: tokenising '
              'terminates with nothing left unscanned), build_error_index / error_located / tokStart_spec (every error '
              'is reported for a token of the source, whose text is the slice at the reported offset), '
-             'unclosed_block_rejected; correspondence on valid templates in 3 syntaxes, single mutations, all '
+             'unclosed_block_rejected; the block builder as a state machine (buildAux_eq_run: the builder IS the iteration of '
+             'stepTok followed by finish) and "rejected iff the grammar is violated": accepted_iff, rejection_classified, '
+             'unknown_tag_rejected, end_without_start_rejected, missing_end_tag_rejected, misplaced_continuation_rejected, '
+             'simple_attribute_error_rejected, block_attribute_error_rejected (each located at the offending / the start tag); '
+             'correspondence on valid templates in 3 syntaxes, single mutations, all '
              'prefixes, junk and a 48-entry grammar-fault corpus: acceptance, compiled tree and token streams agree; '
              'oracle: exception class, error location, pumped-family CPU time',
         note='Trusted: Lean kernel; equivalence of the hand-compiled scanners with CPython re (validated by token '
